@@ -272,6 +272,8 @@ type Case struct {
 type regEntry struct {
 	S    Settings
 	Code *Code
+	// FieldKey is the registered JSON key of a byte array with an object code ("" = serix' default "data")
+	FieldKey string
 }
 
 var (
@@ -443,10 +445,11 @@ func (c *Case) drawPoolSettings(t *rapid.T) {
 		}
 	}
 	// interface implementers: codes are drawn (distinct per interface)
-	shapeCodes := rapid.SliceOfNDistinct(rapid.Uint32Range(0, 255), 4, 4, func(v uint32) uint32 { return v }).Draw(t, "shapeCodes")
-	for i, ty := range []reflect.Type{tof(Circle{}), tof(Rect{}), tof(Poly{}), tof(Dot{})} {
+	shapeCodes := rapid.SliceOfNDistinct(rapid.Uint32Range(0, 255), 5, 5, func(v uint32) uint32 { return v }).Draw(t, "shapeCodes")
+	for i, ty := range []reflect.Type{tof(Circle{}), tof(Rect{}), tof(Poly{}), tof(Dot{}), tof(Addr{})} {
 		c.reg[ty] = &regEntry{Code: &Code{W: 1, V: shapeCodes[i]}}
 	}
+	c.reg[tof(Addr{})].FieldKey = rapid.SampledFrom([]string{"", "pubKeyHash"}).Draw(t, "addrKey")
 	payCodes := rapid.SliceOfNDistinct(rapid.OneOf(rapid.Uint32Range(0, 300), rapid.Uint32()), 3, 3, func(v uint32) uint32 { return v }).Draw(t, "payCodes")
 	for i, ty := range []reflect.Type{tof(PayA{}), tof(PayB{}), tof(PayC{})} {
 		c.reg[ty] = &regEntry{Code: &Code{W: 4, V: payCodes[i]}}
@@ -461,7 +464,7 @@ func (c *Case) drawPoolSettings(t *rapid.T) {
 	case 0:
 		ss.AtMostOne = 1
 	case 1:
-		ss.MustOccur = []uint32{shapeCodes[rapid.IntRange(0, 3).Draw(t, "must")]}
+		ss.MustOccur = []uint32{shapeCodes[rapid.IntRange(0, 4).Draw(t, "must")]}
 		if ss.Max != 0 && ss.Max < 1 {
 			ss.Max = 1
 		}
@@ -510,9 +513,13 @@ func (c *Case) registerAll() {
 	sort.Slice(types, func(i, j int) bool { return types[i].String() < types[j].String() })
 	for _, ty := range types {
 		e := c.reg[ty]
-		must(c.API.RegisterTypeSettings(reflect.New(ty).Elem().Interface(), e.S.toTypeSettings(e.Code)))
+		ts := e.S.toTypeSettings(e.Code)
+		if e.FieldKey != "" {
+			ts = ts.WithFieldKey(e.FieldKey)
+		}
+		must(c.API.RegisterTypeSettings(reflect.New(ty).Elem().Interface(), ts))
 	}
-	must(c.API.RegisterInterfaceObjects((*Shape)(nil), (*Circle)(nil), (*Rect)(nil), (*Poly)(nil), Dot{}))
+	must(c.API.RegisterInterfaceObjects((*Shape)(nil), (*Circle)(nil), (*Rect)(nil), (*Poly)(nil), Dot{}, (*Addr)(nil)))
 	must(c.API.RegisterInterfaceObjects((*Payload)(nil), (*PayA)(nil), (*PayB)(nil), (*PayC)(nil)))
 }
 
@@ -589,9 +596,15 @@ func (c *Case) nDot() *Node {
 	return &Node{Kind: KStruct, T: ty, Name: "Dot", Code: c.regCode(ty), Fields: []*Field{field("X", 0, leaf(KInt8, numTypes[KInt8], ""))}}
 }
 
+// nAddrPtr is the pointer to a byte array with an object code (the only form of such arrays the JSON form reads back).
+func (c *Case) nAddrPtr() *Node {
+	ty := tof(Addr{})
+	return &Node{Kind: KPtr, T: reflect.PointerTo(ty), Elem: &Node{Kind: KByteArr, T: ty, Name: "Addr", N: 20, Code: c.regCode(ty)}}
+}
+
 func (c *Case) nShape() *Node {
 	return &Node{Kind: KIface, T: reflect.TypeOf((*Shape)(nil)).Elem(), Name: "Shape",
-		Impls: []*Node{c.nCirclePtr(), c.nRectPtr(), c.nPolyPtr(), c.nDot()}}
+		Impls: []*Node{c.nCirclePtr(), c.nRectPtr(), c.nPolyPtr(), c.nDot(), c.nAddrPtr()}}
 }
 
 func (c *Case) nPayload(depth int) *Node {
@@ -726,6 +739,9 @@ func (c *Case) genElem(t *rapid.T, depth int, label string) *Node {
 	case 9:
 		return rapid.SampledFrom([]func() *Node{c.nCustomU24, c.nCustomVar}).Draw(t, label+".custom")()
 	case 10:
+		if rapid.Bool().Draw(t, label+".addr") {
+			return c.nAddrPtr()
+		}
 		return c.nCirclePtr()
 	case 11:
 		if depth < c.Cfg.MaxDepth {
@@ -933,7 +949,11 @@ func (c *Case) genStruct(t *rapid.T, depth int, label string) *Node {
 				f.Optional = true
 			}
 		case 13:
-			f.N = c.nCirclePtr()
+			if rapid.Bool().Draw(t, fl+".addr") {
+				f.N = c.nAddrPtr()
+			} else {
+				f.N = c.nCirclePtr()
+			}
 			f.Optional = rapid.Bool().Draw(t, fl+".opt")
 		case 14:
 			f.N = rapid.SampledFrom([]func() *Node{c.nCustomU24, c.nCustomVar}).Draw(t, fl+".custom")()
